@@ -6,3 +6,5 @@ INVARIANT RoundTrip
 INVARIANT AbsentNotFound
 INVARIANT DeviationsBreak
 CHECK_DEADLOCK FALSE
+INVARIANT DeviationsBreakX
+INVARIANT DeviationsBreakXL
